@@ -4,6 +4,7 @@ set -e
 cd "$(dirname "$0")"
 export PYTHONHASHSEED=0
 /venv/bin/python -m harness.tables
+./tools/coqproject.sh
 cd coq
 coq_makefile -f _CoqProject -o Makefile
 timeout 5400 make -j16
